@@ -8,6 +8,9 @@ mod c05;
 mod c06;
 mod c07;
 mod c08;
+mod c14;
+mod c17;
+mod c18;
 mod common;
 mod corpus;
 mod diff;
@@ -74,6 +77,9 @@ fn main() {
         "C06" => c06::run(&ctx),
         "C07" => c07::run(&ctx),
         "C08" => c08::run(&ctx),
+        "C14" => c14::run(&ctx),
+        "C17" => c17::run(&ctx),
+        "C18" => c18::run(&ctx),
         _ => {
             eprintln!("unknown property id {}", id);
             std::process::exit(2);
